@@ -305,8 +305,9 @@ Section Exec.
     | TDecresc len v1 v2 =>
         (* exec_decres: an empty length means a whole note; no remove_cc_on here *)
         let len_s := match len with [] => [49] | _ => len end in
-        Ok (upd_cur s (fun t => on_rt t (fun k =>
-              Reserve.write_cc_on_time k 11 [v1; v2; calc_length len_s (s_timebase s) (tr_length t)])))
+        let l := calc_length len_s (s_timebase s) (tr_length (cur_track s)) in
+        if RAMP_MAX <? l then Unsupported U_RUN_LOOPCOUNT       (* a ramp beyond any reasonable size *)
+        else Ok (upd_cur s (fun t => on_rt t (fun k => Reserve.write_cc_on_time k 11 [v1; v2; l])))
     | TPlay args lineno => exec_play exec_children s args lineno
     | TDefStr name v => Ok (s_set_vars s ((name, def_str_value v) :: s_vars s))
     end.
